@@ -962,6 +962,38 @@ pub fn lockstep_probe<const N: usize>(cfg: &HxCfg, hist: &dyn Fn() -> Vec<Op>, o
     if cfg.probes.rerun > 0 {
         unrelated_calls::<N>(false);
     }
+    // the slices of the state reached, under every drain order of slice's work-list (a hash set):
+    // the same calls must give the same slice whatever the hash seed makes of the order
+    if let Ok(g) = crate::real::replay::<N>(cfg.cap, &h) {
+        let keys = guarded(|| crate::real::keys_sorted(&g)).unwrap_or_default();
+        for v in keys {
+            let mut first: Option<String> = None;
+            let mut differs = None;
+            let runs = for_each_drain_order(120, || {
+                let obs = match guarded(|| g.slice(v).ok().map(|s| observe_all(&s, false))) {
+                    Ok(Some(o)) => o,
+                    Ok(None) => "Err".to_string(),
+                    Err(e) => format!("panic: {e}"),
+                };
+                match &first {
+                    None => {
+                        first = Some(obs);
+                        true
+                    }
+                    Some(f) if *f == obs => true,
+                    Some(f) => {
+                        differs = Some(first_diff(f, &obs));
+                        false
+                    }
+                }
+            });
+            *counters.entry("slice_drain_orders_compared").or_insert(0) += runs as u64;
+            if let Some(d) = differs {
+                out.push(Finding::new("slice-depends-on-drain-order", tags, format!("slice({v}) of the graph reached gives different results depending on the order in which its work-list (a hash set) is drained: {d}")));
+                return;
+            }
+        }
+    }
     for (n2, cap2) in &cfg.probes.lockstep {
         assert!(*n2 >= cfg.n && *cap2 >= cfg.cap, "the lock-step configuration must be at least as large as the base configuration");
         let other = crate::with_any_n!(*n2, M, { trace_of::<M>(*cap2, &h) });
